@@ -612,6 +612,10 @@ pub fn in_toto_verify(
 
     // Execute inspection commands (generates link metadata for each inspection)
     let inspection_link_files = run_all_inspections(&layout)?;
+    // The summary is made of the steps' links: build it before the links of
+    // the inspections join the map (an inspection may carry a step's name).
+    let summary_link =
+        get_summary_link(&layout, &reduced_link_files, step_name.unwrap_or(""));
     reduced_link_files.extend(inspection_link_files);
 
     let inspects = layout
@@ -623,7 +627,7 @@ pub fn in_toto_verify(
     // Verify artifact rules for inspections of layout
     verify_all_item_rules(&inspects, &reduced_link_files)?;
 
-    get_summary_link(&layout, &reduced_link_files, step_name.unwrap_or(""))
+    summary_link
 }
 
 #[cfg(test)]
